@@ -161,7 +161,7 @@ func runC18(c *Ctx, r *Rec) {
 		tmp := newRec(r.Property)
 		runC06(c, tmp)
 		for _, o := range tmp.Obls {
-			if o.Rule == "D2-result-left-to-the-caller" {
+			if o.Rule == "D2-result-left-to-the-caller" || o.Rule == "D2-operand-read-before-return" {
 				r.Obls = append(r.Obls, o)
 			}
 		}
